@@ -12,6 +12,63 @@ import facts  # noqa: E402
 from report import Report  # noqa: E402
 
 
+def extras(prop, tier, rep, mod):
+    """checks shared by all properties: extractor cross-check (both tiers), second build configuration and the
+    self-test corpus (thorough)"""
+    import xcheck
+    cfg = "python" if prop == "C20" else os.environ.get("IVP_CFG_OVERRIDE", "default")
+    f = facts.load(cfg)
+    names = None if tier == "thorough" else {n for n in rep.functions if n in f.bodies}
+    bad, n_fn, n_calls = xcheck.mismatches(f, names)
+    rep.rule("R-XCHECK", "for every analysed function the multiset of resolved crate-local callees in the typed syntax tree equals the multiset of MIR call terminators (guards the counting/pairing rules against a serializer that drops an expression kind)")
+    if bad:
+        for fn, d in bad[:5]:
+            rep.inconc("R-XCHECK", "R-XCHECK:%s" % fn, "syntax-tree and MIR views disagree on the callees of %s: %s (callee: (tree, MIR))" % (fn, dict(list(d.items())[:4])))
+    elif n_fn:
+        rep.ok("R-XCHECK", "R-XCHECK:%s" % cfg, "%d function(s), %d crate-local call(s): both views agree" % (n_fn, n_calls))
+    if tier != "thorough" or os.environ.get("IVP_THOROUGH_CHILD"):
+        return
+    import json
+    import subprocess
+    verif = os.path.dirname(HERE)
+    scratch = os.path.join(facts.CACHE, "thorough-%s" % prop)
+    os.makedirs(scratch, exist_ok=True)
+    # (a) the other build configuration the crate has: the same rules on the `--features python` build
+    if prop != "C20":
+        env = dict(os.environ, IVP_CFG_OVERRIDE="python", IVP_EVIDENCE_DIR=scratch, IVP_THOROUGH_CHILD="1")
+        r = subprocess.run([sys.executable, os.path.join(HERE, "run.py"), prop, "quick"], env=env, capture_output=True, text=True)
+        rep.rule("R-CFG-PYTHON", "the property's rules hold on the `--features python` build as well (same crate, other cfg)")
+        if r.returncode == 1:
+            keys = [l.split("key=")[1].strip() for l in r.stdout.splitlines() if l.startswith("  rule=")]
+            for k in keys:
+                if not any(v["key"] == k for v in rep.violations):
+                    rep.violation("R-CFG-PYTHON", k, "violated on the --features python build only: %s" % k)
+        elif r.returncode == 0:
+            rep.ok("R-CFG-PYTHON", "R-CFG-PYTHON:%s" % prop, "all rule instances also hold with --features python")
+        else:
+            rep.inconc("R-CFG-PYTHON", "R-CFG-PYTHON:%s" % prop, "inconclusive on the python build: %s" % (r.stdout.strip().splitlines() or [""])[-1][:300])
+    # (b) checker self-test: stored mutants of this property must be caught, behaviour-preserving variants must stay silent
+    if rep.violations:
+        rep.note("self-test corpus skipped: the base tree already violates the property")
+        return
+    r = subprocess.run([sys.executable, os.path.join(verif, "tools", "corpus.py"), "--props", prop, "--own-seeds", "--jobs", "12"],
+                       env=dict(os.environ, IVP_THOROUGH_CHILD="1"), capture_output=True, text=True)
+    summ = [l for l in r.stdout.splitlines() if l.startswith("CORPUS ")]
+    rep.rule("R-SELFTEST", "checker self-test on scratch copies of the current tree: every stored seeded change for this property (seeded/*) is reported, every behaviour-preserving variant (selftest/benign/*) raises no violation")
+    if not summ:
+        rep.inconc("R-SELFTEST", "R-SELFTEST:%s" % prop, "corpus runner failed: %s" % (r.stderr or r.stdout)[-300:])
+        return
+    sj = json.loads(summ[0][7:])
+    rep.extra["selftest"] = sj
+    for l in r.stdout.splitlines():
+        if l.startswith(("seeded", "benign")):
+            rep.sample(l[:200])
+    if sj["failed"]:
+        rep.inconc("R-SELFTEST", "R-SELFTEST:%s" % prop, "checker self-test failed for %s (a stored change went unreported or a harmless variant was flagged): the checker, not the tree, needs attention" % sj["failed"])
+    else:
+        rep.ok("R-SELFTEST", "R-SELFTEST:%s" % prop, "%d patched scratch copies behaved as expected (%d not applicable to the current tree)" % (sj["ok"], sj["skipped"]))
+
+
 def main():
     if len(sys.argv) < 2:
         print("usage: run.py <Cxx> [quick|thorough]")
@@ -26,8 +83,11 @@ def main():
         print("INCONCLUSIVE property=%s no rule module: %s" % (prop, e))
         return 2
     rep = Report(prop, tier, getattr(mod, "LEVEL", "other"))
+    if tier == "thorough":
+        os.environ.setdefault("IVP_MAX_SPLIT", "7")
     try:
         mod.run(rep, tier)
+        extras(prop, tier, rep, mod)
     except facts.FactsError as e:
         print("INCONCLUSIVE property=%s facts: %s" % (prop, e))
         rep.inconc("facts", "facts", str(e))
